@@ -89,12 +89,19 @@ class PoisonNumpy(types.ModuleType):
         if arr.size == 0:
             return arr
         k = rr.randrange(4)
-        if arr.dtype.kind == 'f':
-            arr[...] = [float('nan'), float('inf'), -1.797e308, 4.2e201][k]
-        elif arr.dtype.kind in 'iu':
-            arr[...] = [2 ** 62 + 12345, -(2 ** 62) - 7, 2 ** 40 + 3, -999999937][k]
-        elif arr.dtype.kind == 'b':
-            arr[...] = True
+        try:
+            if arr.dtype.kind == 'f':
+                fi = np.finfo(arr.dtype)
+                arr[...] = [float('nan'), float('inf'), float(fi.min) * 0.99, float(fi.max) * 0.5][k]
+            elif arr.dtype.kind in 'iu':
+                # garbage that fits the dtype (int8 ... uint64): near the extremes and an odd mid-range value
+                ii = np.iinfo(arr.dtype)
+                arr[...] = [ii.max - 12345 % max(ii.max, 1), ii.min + 7 if ii.min < 0 else ii.max // 3,
+                            ii.max // 2 + 3, (ii.min // 3 - 37) if ii.min < 0 else ii.max - 5][k]
+            elif arr.dtype.kind == 'b':
+                arr[...] = True
+        except Exception:
+            pass          # the proxy must never raise into the library: unknown dtypes are left as allocated
         return arr
 
     def empty(self, *a, **k):
